@@ -25,6 +25,9 @@ def handle (op : String) (args : List String) : Option String :=
     -- the buffer is n zero bytes: only its length matters to the slicing
     let n ← n.toNat?; let ul ← ul.toNat?; let uo ← uo.toNat?; let dl ← dl.toNat?; let dO ← dO.toNat?
     pure (showO (fun (u, d) => s!"{u.length} {d.length}") (upnSlices (List.replicate n 0) ul uo dl dO))
+  | "tt.ktwalk", [host, b] => do
+    let b ← parseHex b
+    pure (showO (fun es => s!"{es.length} " ++ " ".intercalate (es.map (fun e => toString e.length))) (ktRecords b (host == "1")))
   | _, _ => none
 
 end Driver.Total
